@@ -4,6 +4,7 @@ import p_ll
 import p_xform
 import p_misc
 import p_scan
+import p_ls
 
 REGISTRY = {}
 REGISTRY.update(p_bnf.REGISTRY)
@@ -11,3 +12,4 @@ REGISTRY.update(p_ll.REGISTRY)
 REGISTRY.update(p_xform.REGISTRY)
 REGISTRY.update(p_misc.REGISTRY)
 REGISTRY.update(p_scan.REGISTRY)
+REGISTRY.update(p_ls.REGISTRY)
